@@ -238,7 +238,14 @@ func (ms *monitorState) monitor(t *rapid.T, ev *world.Event) {
 		prevKey = cid + "|" + ev.Partition
 		prev = ms.prevEnc[prevKey]
 		if prev != nil && prev.Rec != nil {
+			// the key involved in a repeated encrypt is the newest key of the partition this cache
+			// knows (a decrypt of a record under a newer key makes that key the cache's latest)
 			x = rowKey{prev.Rec.IKID, prev.Rec.IKCreated}
+			for k := range ms.keysIn[cid] {
+				if k.id == x.id && k.created > x.created {
+					x = k
+				}
+			}
 		}
 	} else {
 		prevKey = fmt.Sprintf("%s|rec%d", cid, ev.Rec.ID)
